@@ -1440,12 +1440,82 @@ static bool ord_laws_all(std::string& why, int only_t = -1, int only_rel = -1, i
   return true;
 }
 
+// ---- plain values and matchers whose operand type differs from the parameter type -------------------------------------
+// "x == v" with the usual arithmetic conversions decides (C10: "for plain values used as operands"): the operand must not
+// be converted to the parameter's type first (300 is not 44 for an unsigned char, 2.5 is not 2 for an int).
+#pragma GCC diagnostic push
+#pragma GCC diagnostic ignored "-Wsign-compare"
+#pragma GCC diagnostic ignored "-Wfloat-equal"
+template <typename P, typename V>
+static bool mixed_one(P x, V v, const char* pn, const char* vn, std::string& why) {
+  const bool want = (x == v);
+  auto fail = [&](const char* form, bool got) {
+    std::ostringstream os;
+    os << "operand of another arithmetic type: " << form << ", parameter " << pn << " = " << +x << ", operand " << vn << " = " << +v << ": accepted = " << got
+       << ", x == v is " << want;
+    why = os.str();
+    return false;
+  };
+  bool g = trompeloeil::param_matches(v, std::cref(x));
+  if (g != want) return fail("plain value", g);
+  g = trompeloeil::param_matches(trompeloeil::eq(v), std::cref(x));
+  if (g != want) return fail("eq(v)", g);
+  g = trompeloeil::param_matches(trompeloeil::any_of(v, v), std::cref(x));
+  if (g != want) return fail("any_of(v, v)", g);
+  g = trompeloeil::param_matches(trompeloeil::all_of(v, trompeloeil::_), std::cref(x));
+  if (g != want) return fail("all_of(v, _)", g);
+  g = trompeloeil::param_matches(trompeloeil::none_of(v), std::cref(x));
+  if (g != !want) return fail("none_of(v)", g);
+  g = trompeloeil::param_matches(!trompeloeil::ne(v), std::cref(x));
+  if (g != want) return fail("!ne(v)", g);
+  return true;
+}
+#pragma GCC diagnostic pop
+static bool mixed_laws_all(std::string& why, int only = -1) {
+  int n = 0;
+  bool ok = true;
+  auto run = [&](auto x, auto v, const char* pn, const char* vn) {
+    int id = n++;
+    if (!ok || (only >= 0 && id != only)) return;
+    ST.evaluations++;
+    ST.label("operand_type_differs_from_parameter_type");
+    if (!mixed_one(x, v, pn, vn, why)) { why += "\nmixlaw " + std::to_string(id); ok = false; }
+  };
+  const unsigned char ucs[] = {0, 44, 255};
+  const int for_uc[] = {300, 44, -212, 556, 255, 256};
+  for (unsigned char x : ucs) for (int v : for_uc) run(x, v, "unsigned char", "int");
+  const short shs[] = {7, -1, 0};
+  const int for_sh[] = {65536 + 7, 7, 65535, -1};
+  for (short x : shs) for (int v : for_sh) run(x, v, "short", "int");
+  const int ints[] = {0, 2, 3, -1};
+  const long long for_i[] = {1LL << 32, (1LL << 32) + 3, 3, -1, (1LL << 32) - 1};
+  for (int x : ints) for (long long v : for_i) run(x, v, "int", "long long");
+  const double for_id[] = {2.5, 2.0, 0.1, -1.0, 3.000001};
+  for (int x : ints) for (double v : for_id) run(x, v, "int", "double");
+  const float fls[] = {0.1f, 2.5f, 16777216.0f};
+  const double for_f[] = {0.1, 2.5, 16777217.0};
+  for (float x : fls) for (double v : for_f) run(x, v, "float", "double");
+  const unsigned uns[] = {4294967295u, 5u, 0u};
+  const int for_u[] = {-1, 5, 0};
+  for (unsigned x : uns) for (int v : for_u) run(x, v, "unsigned", "int");
+  const long long lls[] = {1LL << 32, 5, -1};
+  const int for_ll[] = {0, 5, -1};
+  for (long long x : lls) for (int v : for_ll) run(x, v, "long long", "int");
+  return ok;
+}
+
 int do_replay(const std::string& path, bool verbose) {
   {
     // replay of a named-lvalue law case: a line `lvlaw <a> <b> <rel>`
     std::istringstream in(vc::read_file(path));
     std::string line;
     while (std::getline(in, line)) {
+      if (line.rfind("mixlaw ", 0) == 0) {
+        std::string why;
+        bool good = mixed_laws_all(why, atoi(line.c_str() + 7));
+        if (verbose) printf("replay %s: operand-type law %s: %s\n%s\n", path.c_str(), line.c_str() + 7, good ? "passes" : "FAILS", why.c_str());
+        return good ? 0 : 1;
+      }
       if (line.rfind("ordlaw ", 0) == 0) {
         int t = 0, rel = 0, x = 0, v = 0, ty = 0;
         sscanf(line.c_str() + 7, "%d %d %d %d %d", &t, &rel, &x, &v, &ty);
@@ -1537,12 +1607,12 @@ int main(int argc, char** argv) {
   {
     // named-lvalue laws: small, exhaustive over the string pool, always run first
     std::string why;
-    if (!lvalue_laws_all(why) || !ord_laws_all(why)) {
+    if (!lvalue_laws_all(why) || !ord_laws_all(why) || !mixed_laws_all(why)) {
       std::string path = A.faildir + "/m_fail." + A.prop + "." + std::to_string(getpid()) + ".txt";
       std::string txt = "# engine=M prop=C10\n";
       std::istringstream w(why);
       std::string l, last;
-      while (std::getline(w, l)) { if (l.rfind("lvlaw ", 0) == 0 || l.rfind("ordlaw ", 0) == 0) last = l; else txt += "# " + l + "\n"; }
+      while (std::getline(w, l)) { if (l.rfind("lvlaw ", 0) == 0 || l.rfind("ordlaw ", 0) == 0 || l.rfind("mixlaw ", 0) == 0) last = l; else txt += "# " + l + "\n"; }
       vc::write_file(path, txt + last + "\n");
       g_last_fail = path;
       if (!A.has("quiet")) fprintf(stderr, "%s\n", why.c_str());
